@@ -524,8 +524,7 @@ theorem bundleSh_encode (rels : List (Text × String)) (s : XlsbSheet) (hs : s.o
   have hl12' : ¬ ((Xlsb.le32 (xlsbVisCode s.vis) ++ Xlsb.le32 s.tabId ++ Xlsb.wideBytes s.relUnits ++ Xlsb.wideBytes s.nameUnits).length < 12 + s.relUnits.length * 2) := by
     rw [hlen]; omega
   simp only [hl12, if_false, hrel, hne, hl12', htake, Xlsb.units_unitsBytes s.relUnits h4, hl, hu, hvis.2, hk, hdn, hw]
-  have hk' : kindOfPath Gen.xlsbKindTable ('x' :: 'l' :: '/' :: target.toList) = some kind := hk
-  simp [XlsbSheet.decoded, XlsbSheet.pathOf, hl, hk']
+  simp [XlsbSheet.decoded, XlsbSheet.pathOf, hl, hk]
 
 theorem fillBuf_nil (p : Bytes) : Xlsb.fillBuf [] p = p := rfl
 
